@@ -217,6 +217,47 @@ ASSUME LiftLaws ==
          /\ (m >= n => r.ret.v = SubSeq(it, 1, n) /\ r.consumed = n)
          /\ (m < n => r.consumed = m)
 
+\* The channel iterators as iterators (Frames.tla, It*): every positional call std's Iterator offers is DERIVED here
+\* from next() / next_back() alone, on iterators of every length 0..6 -- nth(j) is j times next() and one more, skip(a)
+\* is nth(a) followed by what is left, step_by(b) is next() and then nth(b - 1) over and over (the route std takes),
+\* last / count / collect agree, rev / nth_back are the mirror images -- and all of it is RELATIVE to what is left
+\* after any prefix of next() / next_back() calls.
+RECURSIVE ItDrop(_, _), ItDropBack(_, _), ItStepNth(_, _), ItDrain(_), ItDrainBack(_)
+ItDrop(rem, j)     == IF j = 0 THEN rem ELSE ItDrop(ItNext(rem).rem, j - 1)              \* j times next()
+ItDropBack(rem, j) == IF j = 0 THEN rem ELSE ItDropBack(ItNextBack(rem).rem, j - 1)      \* j times next_back()
+ItDrain(rem)       == LET r == ItNext(rem) IN IF r.items = << >> THEN << >> ELSE r.items \o ItDrain(r.rem)
+ItDrainBack(rem)   == LET r == ItNextBack(rem) IN IF r.items = << >> THEN << >> ELSE r.items \o ItDrainBack(r.rem)
+ItStepNth(rem, b)  == LET r == ItNth(rem, b - 1) IN IF r.items = << >> THEN << >> ELSE r.items \o ItStepNth(r.rem, b)
+ASSUME IterLaws ==
+  \A n \in 0..6 : \A k \in 0..(n + 1) : \A kb \in 0..(n + 1 - k) :
+    LET x   == [c \in 1..n |-> 100 + 7 * c]                  \* n distinct channels
+        pa  == ItFront(x, k)
+        pb  == ItBack(pa.rem, kb)
+        rem == pb.rem
+    IN /\ pa.rem = ItDrop(x, k) /\ pa.got \o pa.rem = x /\ Len(pa.got) = MinN(k, n)
+       /\ pb.rem = ItDropBack(pa.rem, kb) /\ pb.rem \o ItRev(pb.got) = pa.rem
+       /\ rem = SubSeq(x, MinN(k, n) + 1, n - MinN(kb, n - MinN(k, n)))          \* channels idx .. end-1, in order
+       /\ ItDrain(rem) = rem /\ ItDrainBack(rem) = ItRev(rem)
+       /\ ItOp("collect", 0, rem).items = ItDrain(rem) /\ ItOp("rev", 0, rem).items = ItDrainBack(rem)
+       /\ ItOp("count", 0, rem).cnt = Len(ItDrain(rem))
+       /\ ItOp("last", 0, rem).items = (IF rem = << >> THEN << >> ELSE << ItDrain(rem)[Len(rem)] >>)
+       /\ \A j \in 0..(n + 2) :
+            /\ ItNth(rem, j) = ItNext(ItDrop(rem, j))
+            /\ ItNthBack(rem, j) = ItNextBack(ItDropBack(rem, j))
+            /\ ItNthBack(rem, j).items = ItNth(ItRev(rem), j).items /\ ItNthBack(rem, j).rem = ItRev(ItNth(ItRev(rem), j).rem)
+            \* the statement of the model: nth(j) yields channel idx + j and leaves idx + j + 1 .. (up to where next_back got to)
+            /\ (j < Len(rem) => /\ ItNth(rem, j).items = << x[MinN(k, n) + j + 1] >>
+                                 /\ ItNth(rem, j).rem = SubSeq(x, MinN(k, n) + j + 2, MinN(k, n) + Len(rem)))
+            /\ (j >= Len(rem) => ItNth(rem, j) = [items |-> << >>, rem |-> << >>])
+            /\ ItSkip(rem, j) = ItDrain(ItDrop(rem, j))
+            /\ ItSkip(rem, j) = ItNth(rem, j).items \o ItNth(rem, j).rem               \* std: Skip::next = nth(a), then next()
+            /\ ItOp("nth", j, rem).alive /\ ItOp("nth_back", j, rem).alive /\ ~ItOp("skip", j, rem).alive
+            /\ (j >= 1 =>
+                  \* std: StepBy::next = next() the first time, nth(b - 1) from then on
+                  /\ ItStepBy(rem, j) = ItNext(rem).items \o (IF rem = << >> THEN << >> ELSE ItStepNth(ItNext(rem).rem, j))
+                  /\ \A c \in 1..Len(ItStepBy(rem, j)) : ItStepBy(rem, j)[c] = rem[(c - 1) * j + 1]
+                  /\ Len(ItStepBy(rem, j)) * j >= Len(rem) /\ (Len(ItStepBy(rem, j)) - 1) * j < MaxN(Len(rem), 1))
+
 ---------------------------------------------------------------------------
 (* C10: invariants on the slice cases *)
 XS(l) == ReadView(Mem(l), SV(l))                 \* the l samples
@@ -298,6 +339,25 @@ OffS(f) == IF IsFloat(f) THEN {FZeroF(0), FZeroF(1), FPow2(FmtOf(f), 0, -2), FPo
            ELSE {SZero, SPow2(Shift(f)), SNeg(SPow2(Shift(f))), SOne}
 GainS(f) == LET F == FltOf(f) IN {FZeroF(0), FOne(F), FPow2(F, 0, -1), FPow2(F, 1, -1), FPow2(F, 1, 0), FZeroF(1)}
 
+\* the channel iterators as iterators: after k next() and kb next_back() calls, EVERY positional call with every
+\* argument up to one past the end.  Channels = the first NW(n) of the six boundary values (all different), the value
+\* written through channels_mut = the sixth.  Every (k, kb) on i16 and f32; the other formats (the iterators are generic
+\* in the sample type, the bare-sample impls are per format) get the fresh / once advanced / exhausted iterator of the bare
+\* sample and of width 3.  (The seeded generator of hx_frame covers every width 1..32 on every format.)
+ItCalls(it, nn) ==
+     { << "nth", j >> : j \in 0..(nn + 1) } \cup { << "skip", j >> : j \in 0..(nn + 1) } \cup { << "step_by", j >> : j \in 1..(nn + 1) }
+  \cup { << "last", 0 >>, << "count", 0 >>, << "collect", 0 >> }
+  \cup (IF it = "val" THEN {} ELSE { << "rev", 0 >> } \cup { << "nth_back", j >> : j \in 0..(nn + 1) })
+ItPrefixes(f, it, nn) ==       \* (k, kb)
+  LET full == f \in {"i16", "f32"} IN
+  IF it = "val" THEN { << k, 0 >> : k \in (IF full THEN 0..(nn + 1) ELSE {0, 1, nn}) }
+                ELSE { << k, kb >> : k \in (IF full THEN {0, 1, nn} ELSE {1}), kb \in {0, 1} }
+IterEvs(f, n) ==
+  LET w == W(f) nn == NW(n) IN
+  UNION { { [ev |-> "f_iter", a |-> [fmt |-> f, n |-> n, x |-> FJ(f, Rot(w, 0, nn)), it |-> it, k |-> p[1], kb |-> p[2],
+                                     op |-> c[1], j |-> c[2], v |-> SJ(f, w[6])]]
+            : p \in ItPrefixes(f, it, nn), c \in ItCalls(it, nn) } : it \in {"val", "ref", "mut"} }
+
 FrameExecs(f) ==
   LET sf == SignedOf(f) ff == FloatOf(f) w == W(f) IN
      ExecsOf("frame", "f_offset", UNION { { [ev |-> "f_offset", a |-> [fmt |-> f, n |-> n, x |-> FJ(f, x), amp |-> SJ(sf, a)]]
@@ -326,6 +386,7 @@ FrameExecs(f) ==
                                       : x \in Contents(w, n) } : n \in FrameWidths })
   \o ExecsOf("frame", "f_channels_mut", UNION { { [ev |-> "f_channels_mut", a |-> [fmt |-> f, n |-> n, x |-> FJ(f, x), ys |-> FJ(f, Rot(w, 4, NW(n)))]]
                                       : x \in Contents(w, n) } : n \in FrameWidths })
+  \o ExecsOf("frame", "f_iter", UNION { IterEvs(f, n) : n \in (IF f \in {"i16", "f32"} THEN FrameWidths ELSE {0, 3}) })
   \o ExecsOf("frame", "f_channel", UNION { { [ev |-> "f_channel", a |-> [fmt |-> f, n |-> n, x |-> FJ(f, Rot(w, r, NW(n))), i |-> i, v |-> SJ(f, w[2])]]
                                       : r \in {0, 3}, i \in (-1)..(NW(n) + 1) } : n \in FrameWidths })
 
